@@ -101,6 +101,14 @@ class Exec(Interp):
         raise PyContinue()
 
     def exec_Assert(self, st, node):
+        fr = self.frame(st)
+        if fr.fi is not None and fr.fi.file == "<lemma>" and len(st.frames) == 1:
+            # an assert of a lemma program is a proof obligation of its own (always emitted: whether the quick feasibility
+            # solver happens to refute its negation must not change the number of obligations from run to run)
+            t = self.truth(st, self.eval(st, node.test))
+            fn = fr.contract.qualname if fr.contract is not None else "lemma"
+            st.oblige("%s:assert@%d" % (fn, node.lineno), t, "assert", "line %s" % node.lineno)
+            return
         if not self.cond(st, node.test):
             self.raise_(AssertionError, node)
 
